@@ -102,9 +102,13 @@ func (c *c18ScriptConn) take() [][]byte {
 	c.frames = nil
 	return f
 }
-func (c *c18ScriptConn) Close() error                     { c.once.Do(func() { close(c.closed) }); return nil }
-func (c *c18ScriptConn) LocalAddr() net.Addr              { return &net.TCPAddr{IP: net.IPv4(127, 0, 0, 1), Port: 5684} }
-func (c *c18ScriptConn) RemoteAddr() net.Addr             { return &net.TCPAddr{IP: net.IPv4(127, 0, 0, 1), Port: 5683} }
+func (c *c18ScriptConn) Close() error { c.once.Do(func() { close(c.closed) }); return nil }
+func (c *c18ScriptConn) LocalAddr() net.Addr {
+	return &net.TCPAddr{IP: net.IPv4(127, 0, 0, 1), Port: 5684}
+}
+func (c *c18ScriptConn) RemoteAddr() net.Addr {
+	return &net.TCPAddr{IP: net.IPv4(127, 0, 0, 1), Port: 5683}
+}
 func (c *c18ScriptConn) SetDeadline(time.Time) error      { return nil }
 func (c *c18ScriptConn) SetReadDeadline(time.Time) error  { return nil }
 func (c *c18ScriptConn) SetWriteDeadline(time.Time) error { return nil }
